@@ -323,7 +323,8 @@ func (g *docGen) wrap(tag, attrs, inner string) string {
 // a piece of text without a single word
 func (g *docGen) render(n *cnode) string {
 	out := g.render0(n)
-	if g.mediaSeps && n.parentK == "P" && n.textBefore && (n.k == "IMG" || n.k == "VID" || n.k == "EMB") && g.rng.Intn(2) == 0 {
+	gallery := n.leftK == "IMG" || n.leftK == "VID" || n.leftK == "EMB" // media side by side: a small gallery, always with a sign between
+	if g.mediaSeps && n.parentK == "P" && n.textBefore && (n.k == "IMG" || n.k == "VID" || n.k == "EMB") && (gallery || g.rng.Intn(2) == 0) {
 		out = g.pick(" | ", " \u00b7 ", " \u2014 ", " *** ") + out
 	}
 	return out
